@@ -34,6 +34,10 @@ func checkC01(c *Ctx) {
 	c.newickGuards(wn)
 	c.newickParens(wn)
 	c.newickFloats([]*FuncInfo{wt, wn}, []*FuncInfo{pi, pp, si})
+	c.Decides("TRIM-WS: the Newick reader (package io/newick) removes nothing but white space from the texts it reads: every strings.Trim*/Replace* call there is TrimSpace or has a constant white-space cut set")
+	if nt, _ := c.trimWhiteSpaceOnly("TRIM-WS", c.AllFuncs("io/newick"), "the same tip and internal-node names"); nt == 0 {
+		c.Undecided("TRIM-WS", "scan", token.NoPos, "no trimming call seen in io/newick (the TrimSpace of tip names was the instance confirmed by hand)")
+	}
 	c.Decides("FMT-CONST: no text computed from a tree (Newick, names, comments) is used as a printf format string anywhere in the repository (a '%' in a label would be rewritten)")
 	nf, _ := c.fmtConst("FMT-CONST", c.All, "the same tip names, internal-node names ... comments", nil)
 	c.Extra["printf_like_calls"] = nf
